@@ -10,3 +10,47 @@ pub fn panic_msg(e: Box<dyn Any + Send>) -> String {
 pub fn rt() -> tokio::runtime::Runtime { tokio::runtime::Builder::new_current_thread().enable_all().build().unwrap() }
 pub const PINNED_CLOCK: u64 = 784111777; // Sun, 06 Nov 1994 08:49:37 GMT
 pub fn pin_clock(t: u64) { ohkami::util::__VERIF_CLOCK.store(t, std::sync::atomic::Ordering::Relaxed); }
+
+/// an in-memory connection: each element of `chunks` is what one `read` finds available (a chunk longer than the
+/// destination is delivered over consecutive reads); after the script, `eof` decides between end-of-stream and a
+/// connection that stays open with nothing to read (the read then never completes: the executor reports `stall`).
+pub struct Script { pub chunks: std::collections::VecDeque<Vec<u8>>, pub eof: bool, pub stalled: std::sync::Arc<std::sync::atomic::AtomicBool> }
+impl Script {
+    pub fn new(chunks: Vec<Vec<u8>>, eof: bool) -> Self { Script { chunks: chunks.into(), eof, stalled: Default::default() } }
+}
+impl tokio::io::AsyncRead for Script {
+    fn poll_read(mut self: std::pin::Pin<&mut Self>, _cx: &mut std::task::Context<'_>, buf: &mut tokio::io::ReadBuf<'_>) -> std::task::Poll<std::io::Result<()>> {
+        loop {
+            match self.chunks.front_mut() {
+                None => {
+                    if self.eof { return std::task::Poll::Ready(Ok(())) }
+                    self.stalled.store(true, std::sync::atomic::Ordering::SeqCst);
+                    return std::task::Poll::Pending
+                }
+                Some(c) if c.is_empty() => { self.chunks.pop_front(); continue }
+                Some(c) => {
+                    let n = c.len().min(buf.remaining());
+                    buf.put_slice(&c[..n]); c.drain(..n);
+                    if c.is_empty() { self.chunks.pop_front(); }
+                    return std::task::Poll::Ready(Ok(()))
+                }
+            }
+        }
+    }
+}
+
+/// poll a future once-at-a-time on the current thread until it completes or the script reports a stall
+pub fn block_on_or_stall<F: std::future::Future>(stalled: &std::sync::atomic::AtomicBool, fut: F) -> Option<F::Output> {
+    use std::task::{Context, Poll, RawWaker, RawWakerVTable, Waker};
+    fn noop_raw() -> RawWaker { fn no(_: *const ()) {} fn cl(_: *const ()) -> RawWaker { noop_raw() } static VT: RawWakerVTable = RawWakerVTable::new(cl, no, no, no); RawWaker::new(std::ptr::null(), &VT) }
+    let waker = unsafe { Waker::from_raw(noop_raw()) };
+    let mut cx = Context::from_waker(&waker);
+    let mut fut = std::pin::pin!(fut);
+    for _ in 0..1_000_000 {
+        match fut.as_mut().poll(&mut cx) {
+            Poll::Ready(v) => return Some(v),
+            Poll::Pending => if stalled.load(std::sync::atomic::Ordering::SeqCst) { return None },
+        }
+    }
+    None
+}
